@@ -374,6 +374,7 @@ impl Sim {
             dispatch_seq: 0,
             send_failed: 0,
             calls: 0,
+            call_seq: 0,
             call_inst: None,
             finished: false,
             discarded: false,
